@@ -356,9 +356,9 @@ class TrioNurseryManager:
         """leaving `async with trio.open_nursery()`: waits for the children -- no longer than the
         deadline of the nursery's cancel scope if one was set (they are cancelled then).  A body
         that was cancelled (trio.Cancelled: a child failed) leaves with the children's errors."""
-        interp.traces.setdefault("joined", []).append(("join", _timer_live(interp)))
         exc = args[1] if len(args) > 1 else None
         n = obj.fields.get("nursery")
+        interp.traces.setdefault("joined", []).append(("join", _timer_live(interp), n))
         dl = n.fields["cancel_scope"].fields.get("deadline") if isinstance(n, SObj) else None
         interp.yield_point(fr, "nursery.__aexit__")
         if dl is not None:
@@ -537,6 +537,8 @@ def _timeouts(interp):
         coro = a[0]
         timeout = a[1] if len(a) > 1 else k.get("timeout")
         from .sym import SymOpt
+
+        interp.traces.setdefault("waited", []).append((coro, timeout))  # contracts: what was waited for, with which limit
 
         if isinstance(timeout, SymOpt):
             timeout = None if interp.ctx.branch(timeout.is_none, f"timeout is None@{fr.line}") else timeout.value
